@@ -264,6 +264,10 @@ else:
 def _histogramdd(
     sample, *, bins=10, range=None, density=None, weights=None, normed=None
 ):
+    if isinstance(sample, np.ndarray) and sample.ndim == 2:
+        # numpy reads a (N, D) array as N points in D dimensions,
+        # but a sequence as D arrays of coordinates
+        sample = tuple(sample.T)
     range = _sanitize_range(range, units=[getattr(_, "units", None) for _ in sample])
     if NUMPY_VERSION >= Version("1.24"):
         counts, bins = np.histogramdd._implementation(
